@@ -308,8 +308,20 @@ func main() {
 		for _, t := range tags {
 			rep.Stat("msg." + t)
 		}
-		limit := []int{0, 0, 0, 16, 64, 300}[r.Intn(6)]
+		limit := []int{0, 0, 0, 16, 64, 300, -1, -2}[r.Intn(8)]
 		segsets := segmentations(r, b, *allcuts && len(b) <= 400, 4)
+		if limit < 0 {
+			// a read limit that the whole stream just fits: whatever is retained plus the next read never exceeds it, so
+			// no segmentation may be refused as too long (the boundary of the guard)
+			limit = len(b) + (-1-limit)*r.Intn(3)
+			rep.Stat("readlimit.exact-or-just-above")
+			for k := 1; k <= 3 && k < len(b); k++ {
+				segsets = append(segsets, [][]byte{b[:k], b[k:]})
+			}
+			if len(b) > 8 {
+				segsets = append(segsets, [][]byte{b[:len(b)/2], b[len(b)/2:]}, [][]byte{b[:len(b)-1], b[len(b)-1:]})
+			}
+		}
 		ci := 0
 		if client {
 			ci = 1
@@ -350,7 +362,7 @@ func main() {
 			// ---- O6: segmentation independence (implementation alone; the property is stated for the parser, limits aside)
 			if si == 0 {
 				onePiece = got
-			} else if limit == 0 && stripRet(got.out) != stripRet(onePiece.out) {
+			} else if (limit == 0 || limit >= len(b)) && stripRet(got.out) != stripRet(onePiece.out) {
 				rep.Add(hx.Finding{Kind: "oracle", Property: "C06", Signature: "segmentation-dependent", What: "one piece and segmented feeding differ\n one  =" + stripRet(onePiece.out) + "\n segs =" + stripRet(got.out), Replay: replay})
 				break
 			}
@@ -475,6 +487,12 @@ func malformed(rep *hx.Report) {
 		{"te-unsupported", "POST / HTTP/1.1\r\nTransfer-Encoding: gzip\r\n\r\n0\r\n\r\n"},
 		{"te-list", "POST / HTTP/1.1\r\nTransfer-Encoding: gzip, chunked\r\n\r\n0\r\n\r\n"},
 		{"te-repeated", "POST / HTTP/1.1\r\nTransfer-Encoding: chunked\r\nTransfer-Encoding: chunked\r\n\r\n0\r\n\r\n"},
+		{"te-repeated-empty-second", "POST / HTTP/1.1\r\nTransfer-Encoding: chunked\r\nTransfer-Encoding:\r\n\r\n0\r\n\r\n"},
+		{"te-repeated-blank-first", "POST / HTTP/1.1\r\nTransfer-Encoding:  \r\nTransfer-Encoding: chunked\r\n\r\n0\r\n\r\n"},
+		{"te-empty-with-cl", "POST / HTTP/1.1\r\nTransfer-Encoding:\r\nContent-Length: 5\r\n\r\nhello"},
+		{"cl-blank", "POST / HTTP/1.1\r\nContent-Length:   \r\n\r\nab"},
+		{"chunk-size-junk", "POST / HTTP/1.1\r\nTransfer-Encoding: chunked\r\n\r\n2g\r\nab\r\n0\r\n\r\n"},
+		{"chunk-size-two-numbers", "POST / HTTP/1.1\r\nTransfer-Encoding: chunked\r\n\r\n2 3\r\nab\r\n0\r\n\r\n"},
 		{"chunk-nonhex", "POST / HTTP/1.1\r\nTransfer-Encoding: chunked\r\n\r\ng\r\nab\r\n0\r\n\r\n"},
 		{"chunk-overflow", "POST / HTTP/1.1\r\nTransfer-Encoding: chunked\r\n\r\nffffffffffffffffff\r\nab\r\n0\r\n\r\n"},
 		{"chunk-negative", "POST / HTTP/1.1\r\nTransfer-Encoding: chunked\r\n\r\n-2\r\nab\r\n0\r\n\r\n"},
